@@ -622,6 +622,11 @@ class HostInterp:
         return Const(v)
       if isinstance(node, ast.Constant):
         return Const(node.value)
+      src = unparse(node)
+      if ("DisableBit." in src or "EnableBit." in src) and len(src) < 200:
+        # a module-level mask of option flags (`_MASK = int(DisableBit.A | DisableBit.B)`): keep the defining expression in
+        # path-condition texts so that the flag evaluator can decide tests written against the mask
+        return Expr(f"({src})")
       return Expr(f"{r[1]}.{r[2]}")
     return Unknown(text)
 
